@@ -22,6 +22,7 @@ import TonVerif.Proofs.TlMono
 import TonVerif.Proofs.SrcTl
 import TonVerif.Generated.TlFraming
 import TonVerif.Proofs.SrcTlEngine
+import TonVerif.Proofs.SrcTlParser
 
 namespace TonVerif.Properties.C14
 open TonVerif TonVerif.Spec.Tl TonVerif.Model.Tl TonVerif.Proofs.Tl
@@ -542,5 +543,122 @@ example : Block.to_bytes [9] [7] 5 (-9223372036854775808) (-1) =
     Block.to_bytes [] [] 0 0 (2 ^ 31) = none := by decide
 
 end SrcEngine
+
+/-! ### The PARSER regenerated from source (Generated/TlEngine.lean: `deserialize`, `deserialize_loop1/2/3`, `deserialize_rest1`)
+
+`TlSchemas.deserialize` is re-translated on every run as ONE Lean function per loop body: `deserialize` (the call: id lookup through
+`get_by_id(data[0:4], 'little')`, the `@type` entry, the field loop), `deserialize_loop1` (one field: the flags test through
+`bin(..)[::-1]`), `deserialize_rest1` (the value of a present field: fixed-size reads, `bytes` / `string` framing and the auto-deserialise
+branch, vectors with the guard of fix 110bf4a, bare / boxed references), `deserialize_loop2` (one iteration of `while j < byte_len`),
+`deserialize_loop3` (one vector element).  `deserializeF T auto slack fuel` ties the knot: depth budget `fuel` (one unit per nested call; the
+call through the pseudo schema `{'_': subtype}` runs at the same depth) and `len(data) + 2 + slack` iterations for the `while` loop.
+`TableArgsOK T`: the field names of every constructor are distinct (`schema.args` is a Python dict). -/
+section SrcParser
+open TonVerif.Generated.TlEngine TonVerif.Proofs.SrcTlParser TonVerif.Py.Tl
+
+/-- THE TIE of the parser, for ALL byte strings (well formed or not), both modes, all depth budgets, all loop budgets from
+`len(data) + 2` on and EVERY schema table with distinct field names: the regenerated `schemas.deserialize(data)` is the hand model's
+`deserialize` (same value, same consumed count, same decision to raise: `bin(None)`, `.decode()` of invalid UTF-8 or of a re-parsed
+object, the vector guard, a missing `'_'` of an invalid `Bool` element, `None.items()`); a boxed call ignores `args`; the bare call
+`deserialize(data, False, args)` is the model's bare parse. -/
+theorem c14_src_parser (T : Table) (hT : TableArgsOK T) (auto : Bool) (slack fuel : Nat) (d : Bytes) :
+    deserializeF T auto slack fuel d true none = Model.Tl.deserialize T auto fuel d ∧
+    (∀ args, deserializeF T auto slack fuel d true args = deserObj T auto fuel d none) ∧
+    (∀ as, ArgsOK as → deserializeF T auto slack fuel d false (some as) = deserObj T auto fuel d (some as)) :=
+  ⟨(src_parser T hT auto slack fuel).1 d none, (src_parser T hT auto slack fuel).1 d, (src_parser T hT auto slack fuel).2 d⟩
+
+/-- the bundled table has distinct field names in every constructor (kernel evaluation over the regenerated table). -/
+theorem c14_table_args : TableArgsOK Generated.Tl.table := by
+  unfold TableArgsOK ArgsOK; decide +kernel
+
+/-- `c14_roundtrip_plain` on the REGENERATED code on both sides: regenerated `deserialize` ∘ regenerated `serialize` is the identity on
+well-typed values (auto-deserialisation off), consuming exactly the serialised length, whatever follows, for every loop budget. -/
+theorem c14_src_roundtrip_plain (T : Table) (hT : TableOK T) (hA : TableArgsOK T) (c : Ctor) (hc : c ∈ T.ctors) (v : Val) (bs : Bytes)
+    (h : tlEncode T (fun _ => True) c v bs) :
+    ∃ N, ∀ fuel, N ≤ fuel → ∀ rest slack,
+      serializeF T fuel (some c) v true = some bs ∧ deserializeF T false slack fuel (bs ++ rest) true none = some (v, bs.length) := by
+  obtain ⟨N, hN⟩ := c14_roundtrip_plain T hT c hc v bs h
+  obtain ⟨N2, hN2⟩ := c14_src_wire T _ c v bs h
+  exact ⟨max N N2, fun fuel hf rest slack =>
+    ⟨hN2 fuel (by omega), by rw [(c14_src_parser T hA false slack fuel _).1]; exact (hN fuel (by omega) rest).2⟩⟩
+
+/-- `c14_roundtrip_auto` on the REGENERATED code on both sides (auto-deserialisation ON): the parse of the serialisation returns
+`normalize v` and the serialised length, and raises exactly when `normalize v` is `none`. -/
+theorem c14_src_roundtrip_auto (T : Table) (hT : TableOK T) (hA : TableArgsOK T) (c : Ctor) (hc : c ∈ T.ctors) (v : Val) (bs : Bytes)
+    (h : tlEncode T (fun _ => True) c v bs) :
+    ∃ N, ∀ fuel, N ≤ fuel → ∀ rest slack,
+      serializeF T fuel (some c) v true = some bs ∧
+      deserializeF T true slack fuel (bs ++ rest) true none = (normalize T fuel c v).map (fun w => (w, bs.length)) := by
+  obtain ⟨N, hN⟩ := c14_roundtrip_auto T hT c hc v bs h
+  obtain ⟨N2, hN2⟩ := c14_src_wire T _ c v bs h
+  exact ⟨max N N2, fun fuel hf rest slack =>
+    ⟨hN2 fuel (by omega), by rw [(c14_src_parser T hA true slack fuel _).1]; exact (hN fuel (by omega) rest).2⟩⟩
+
+/-- `c14_string_lengths`, READING side, for the regenerated code and EVERY content `b` below 2^24 bytes (0, 253, 254, every residue
+mod 4): the regenerated field step on a `bytes` field (auto-deserialisation off) at offset `i`, where the input continues with the TL
+framing of `b` followed by anything, stores exactly `b` and advances by exactly the frame length (header + content + padding); on a
+`string` field it stores the decoded text when `b` is valid UTF-8 and raises otherwise. -/
+theorem c14_src_string_lengths_reader (T : Table) (rg rp : Bytes → Bool → Option (List Arg) → Option (Val × Nat))
+    (rm : Bytes → Option (List Arg) → Option (Val × Nat)) (hr : RecOK T rg rm) (L : Nat) (data : Bytes) (hL : data.length + 2 ≤ L)
+    (k i : Nat) (ty : Option Nat) (acc : Fields) (schema : Option Ctor) (hk : acc.lookup k = none) (b rest : Bytes)
+    (hb : b.length < 2 ^ 24) (hd : data.drop i = encodeBytes b ++ rest) :
+    deserialize_rest1 T rg rp L false data k i (.obj ty acc) schema (TyS.base .bytes) =
+      some (i + (encodeBytes b).length, .obj ty (acc ++ [(k, .bytes b)])) ∧
+    deserialize_rest1 T rg rp L false data k i (.obj ty acc) schema (TyS.base .string) =
+      (if utf8Valid b then some (i + (encodeBytes b).length, .obj ty (acc ++ [(k, .str b)])) else none) := by
+  have hf := readFrame_encodeBytes b rest hb
+  constructor
+  · have := rest1_bytes T rg rp rm hr L false data k i ty acc schema .bytes hk hL (Or.inl rfl)
+    rw [show TyS.base .bytes = ⟨none, false, .bytes⟩ from rfl, this, hd]
+    simp [deserOne, hf, stepRes]
+  · have := rest1_bytes T rg rp rm hr L false data k i ty acc schema .string hk hL (Or.inr rfl)
+    rw [show TyS.base .string = ⟨none, false, .string⟩ from rfl, this, hd]
+    by_cases hu : utf8Valid b = true <;> simp [deserOne, hf, stepRes, hu]
+
+/-- non-vacuity: the regenerated parser evaluated on the toy table (flags field, conditional bytes, vector, bare + boxed reference),
+with a re-parsed content (auto on) and raw (auto off); the toy tables have distinct field names; an invalid `Bool` is left unset. -/
+example : TableArgsOK toy ∧ TableArgsOK toy2 := by unfold TableArgsOK ArgsOK; decide
+example : deserializeF toy true 0 5 (natToLE 4 0x12345678 ++ (intLE 4 1 ++ (encodeBytes inner ++ natToLE 4 0))) true none =
+    some (.obj (some 10) [(0, .int 1), (2, .obj (some 10) [(0, .int 0), (3, .list [])]), (3, .list [])], 28) := by rfl
+example : deserializeF toy false 0 5 (natToLE 4 0x12345678 ++ (intLE 4 1 ++ (encodeBytes inner ++ natToLE 4 0))) true none =
+    some (.obj (some 10) [(0, .int 1), (2, .bytes inner), (3, .list [])], 28) := by rfl
+example : deserializeF toy true 0 5 (natToLE 4 0x12345678 ++ (intLE 4 1 ++ (encodeBytes (inner ++ inner) ++ natToLE 4 0))) true none =
+    some (.obj (some 10) [(0, .int 1),
+      (2, .list [.obj (some 10) [(0, .int 0), (3, .list [])], .obj (some 10) [(0, .int 0), (3, .list [])]]), (3, .list [])], 40) := by
+  rfl
+example : deserializeF toy2 true 0 5 (natToLE 4 0x64636261 ++ encodeBytes [97, 98, 99, 100]) true none = none := by rfl
+
+/-- **C19 for the REGENERATED `TlSchemas.deserialize`** (stated in this file because Properties/C19.lean cannot import `Model.Tl`: its
+`Tl.tlFuel` / `Tl.NoBareCycle` of the cost model would become ambiguous).  For EVERY schema table with distinct field names and without a
+cycle of bare references (`NoBareCycle T R`), EVERY byte string `d` (well formed or not) and both modes: the regenerated parser run with
+the recursion-depth budget `tlFuel R len(d) = (len(d)/4 + 1)(R + 2)` and the iteration budget `len(d) + 2` for its `while j < byte_len`
+loop returns what it returns with ANY larger budgets (`fuel ≥ tlFuel R len(d)`, any `slack`) - and that is the hand model's result:
+neither budget is ever the reason for `none`, so no loop and no recursion of the code runs longer than a bound in the input LENGTH,
+whatever lengths the input declares.  (Every `while` iteration consumes ≥ 1 byte of the content or breaks - `SrcTlParser.loop2_while`;
+the vector loop is bounded by the guard of fix 110bf4a; a boxed level consumes its 4-byte id and at most `R + 1` bare levels lie between
+two boxed ones - `c14_fuel_suffices`; the step COUNT of the cost model is `c19_tl_total`.) -/
+theorem c19_src_tl_total (T : Table) (hA : TableArgsOK T) (R : Nat) (hR : NoBareCycle T R) (auto : Bool) (d : Bytes)
+    (fuel slack : Nat) (hf : tlFuel R d.length ≤ fuel) :
+    deserializeF T auto slack fuel d true none = deserializeF T auto 0 (tlFuel R d.length) d true none ∧
+    deserializeF T auto 0 (tlFuel R d.length) d true none = Model.Tl.deserialize T auto (tlFuel R d.length) d := by
+  have h1 := (src_parser T hA auto slack fuel).1 d none
+  have h2 := (src_parser T hA auto 0 (tlFuel R d.length)).1 d none
+  refine ⟨?_, h2⟩
+  rw [h1, h2]
+  exact fuel_suffices T R hR auto d fuel hf
+
+/-- ... for the bundled table (bare references nest at most 5 deep), unconditionally. -/
+theorem c19_src_tl_total_bundled (auto : Bool) (d : Bytes) (fuel slack : Nat) (hf : tlFuel 5 d.length ≤ fuel) :
+    deserializeF Generated.Tl.table auto slack fuel d true none =
+      deserializeF Generated.Tl.table auto 0 (tlFuel 5 d.length) d true none :=
+  (c19_src_tl_total _ c14_table_args 5 c14_table_bare_depth auto d fuel slack hf).1
+
+/-- non-vacuity of `c19_src_tl_total`: the toy table meets both side conditions; with the budgets of the theorem a `bytes` content
+declaring 255 bytes over 0 remaining returns, and a vector declaring 2^22 elements over 0 bytes raises at once (guard). -/
+example : TableArgsOK toy2 ∧ NoBareCycle toy2 2 := by unfold TableArgsOK ArgsOK NoBareCycle; decide
+example : deserializeF toy2 true 0 (tlFuel 2 5) (natToLE 4 0x64636261 ++ [255]) true none = some (.obj (some 30) [(6, .str [])], 260) := by rfl
+example : deserializeF toy2 true 0 (tlFuel 2 12) (natToLE 4 0x12345678 ++ (intLE 4 0 ++ natToLE 4 (2 ^ 22))) true none = none := by rfl
+
+end SrcParser
 
 end TonVerif.Properties.C14
